@@ -177,7 +177,7 @@ pub fn replay(case: &J, cli: Option<&str>, idx: usize, thorough: bool) -> J {
             "replace", "trim", "uppercase", "lowercase", "includes", "format", "typeof", "arity", "keys", "values", "entries", "group_by", "count_by", "flatten", "zip", "chunk", "to_string", "to_number",
             "to_bool", "convert", "ugt", "ult", "ugte", "ulte"];
         // captured and literal whole numbers at and beyond the 64-bit integer range, in every position a value can be written
-        for def in ["big = 2 ^ 64\nfn = (x) => x / big", "big = 0 - 2 ^ 70\nfn = (x) => [x + big, big]", "l = [2 ^ 63, 2 ^ 53, 25!, 1e300, 123456789012345678, 0 - 2 ^ 63]\nfn = (x) => map(l, y => y / x)",
+        for def in ["z = 0 * (3 - 4)\nfn = (x) => [x / z, z, 0 - z, [z], {k: z}]", "fn = (x) => [x / (0 * (3 - 4)), -0, x / -0, -(0), -x]", "big = 2 ^ 64\nfn = (x) => x / big", "big = 0 - 2 ^ 70\nfn = (x) => [x + big, big]", "l = [2 ^ 63, 2 ^ 53, 25!, 1e300, 123456789012345678, 0 - 2 ^ 63]\nfn = (x) => map(l, y => y / x)",
                     "r = {m: 1e19, n: [9223372036854775807, 9223372036854775808, 18446744073709551616]}\nfn = (x) => [r.m / x, r.n]", "fn = (x) => x / 18446744073709551616 + 1e19 / 1e18"] {
             let s = Session::new();
             for line in def.lines() { let _ = s.eval(line); }
